@@ -3,6 +3,17 @@
 PROPS = {
     "C20": dict(
         level="proof", needs_ext=True,
+        technique="contract-based deductive verification (own VC generator over the Python ast, z3); bounded run-time contract evaluation as labelled stand-in",
+        level_text="Every function the property names (partition, _quicksort, quicksort, the key-value variants, isplit, splitarray, "
+                   "format_meter/format_interval, sbar, _pbar_full, pbar, prange, pmap) is verified against a sidecar contract whose "
+                   "postconditions are transcribed from the statement; loops carry inductive invariants, recursion a variant, generators "
+                   "a ghost output trace; all obligations are discharged by z3 for all inputs. pmap's schedule independence rests on the "
+                   "assumed Executor.map ordering contract and a bounded latency-randomised run.",
+        level_note="Trusted: the esvc VC generator (cross-checked by mutants and by running the same contracts on the real code), z3, "
+                   "CPython's ast; elements of sorted arrays are modelled as mathematical integers (only <,>,== are applied); "
+                   "bijectivity of the origin map follows from injectivity on a finite range (pigeonhole, not machine-checked); "
+                   "termination is proved for the inner loops and the recursion, not for the outer partition loop; recursion depth is not bounded; "
+                   "time.time() is arbitrary; string formatting results are opaque; concurrent.futures.Executor.map ordering is assumed.",
         explanation="Deductive: the in-place sorts (partition/_quicksort/quicksort and the key-value variants), isplit and "
                     "splitarray are verified against contracts transcribed from the property (sorted + permutation via an "
                     "origin ghost, closed-form chunk bounds, chunk concatenation); the progress wrappers are verified as "
@@ -13,3 +24,8 @@ PROPS = {
 
 for _k in range(1, 21):
     PROPS.setdefault("C%02d" % _k, dict(level="other", needs_ext=True, explanation="see DESIGN.md section 8"))
+
+
+CLAIMED = {"C20"}
+NOT_APPLICABLE = {("C%02d" % k): "check not built yet (implementation in progress; plan in DESIGN.md section 8)"
+                  for k in range(1, 21) if ("C%02d" % k) not in CLAIMED}
